@@ -38,7 +38,7 @@ fn str_arg(len1: bool, c: char) -> QueryResult {
     QueryResult::Resolved(Rc::new(PathAwareValue::String((p(), s))))
 }
 
-//@ k16_join_2 props=C18 tier=probe expect=pass fns=join :: join of two strings of symbolic length 0..1 (ASCII, symbolic) with a 1-char delimiter: result = s0 + d + s1 in query order - the delimiter appears between elements even when an element is empty
+//@ k16_join_2 props=C18 tier=quick expect=pass fns=join :: join of two strings of symbolic length 0..1 (ASCII, symbolic) with a 1-char delimiter: result = s0 + d + s1 in query order - the delimiter appears between elements even when an element is empty
 proof!(k16_join_2, 8, {
     let (l0, l1): (bool, bool) = (kani::any(), kani::any());
     let (a, b, d) = (ascii(), ascii(), ascii());
